@@ -42,3 +42,26 @@ Definition check_case (c : case) : bool :=
   && Bool.eqb (main_done s) (c_main_done c)
   && forallb (fun r => list_eqb N.eqb r deny_reason) (c_reasons c)
   && Nat.eqb (length (c_reasons c)) (length (c_refused c)).
+
+(* ---- racing closer (Model/PoolRace.v): thread 0 accept loop, 1 closer, 2+i Worker i ---- *)
+From V Require Import Model.PoolRace.
+Record rcase := { r_case : case; r_closer_done : bool }.
+Definition rcfg_of (c : rcase) : cfg := mk_cfg (c_size (r_case c)) (c_min (r_case c)) (c_njobs (r_case c)) false gen_locks.
+Definition rfinal (c : rcase) : rst := rrun (rcfg_of c) (c_sched (r_case c)) (rinit (rcfg_of c)).
+Definition rmodel_case (rc : rcase) :=
+  let r := rfinal rc in let s := base r in
+  (rtrace (rcfg_of rc) (c_sched (r_case rc)) (rinit (rcfg_of rc)), lock s, idle s, busy s, closed s,
+   map (fun i => obs_of (ws s i)) (seq 0 (nw s)), started s, ended s, refused s, poolclosed s, main_done s,
+   match m_pc (kl r) with MDone => true | _ => false end).
+Definition check_rcase (rc : rcase) : bool :=
+  let c := r_case rc in let r := rfinal rc in let s := base r in
+  list_eqb Nat.eqb (rtrace (rcfg_of rc) (c_sched c) (rinit (rcfg_of rc))) (c_trace c)
+  && optnat_eqb (lock s) (c_lock c)
+  && list_eqb Nat.eqb (idle s) (c_idle c) && list_eqb Nat.eqb (busy s) (c_busy c) && Bool.eqb (closed s) (c_closed c)
+  && list_eqb wobs_eqb (map (fun i => obs_of (ws s i)) (seq 0 (nw s))) (c_workers c)
+  && list_eqb Nat.eqb (started s) (c_started c) && list_eqb Nat.eqb (ended s) (c_ended c)
+  && list_eqb Nat.eqb (refused s) (c_refused c) && list_eqb Nat.eqb (poolclosed s) (c_poolclosed c)
+  && Bool.eqb (main_done s) (c_main_done c)
+  && Bool.eqb (match m_pc (kl r) with MDone => true | _ => false end) (r_closer_done rc)
+  && forallb (fun r => list_eqb N.eqb r deny_reason) (c_reasons c)
+  && Nat.eqb (length (c_reasons c)) (length (c_refused c)).
